@@ -28,6 +28,12 @@ pub enum Flavour {
     StdoutNotATtyStderrTty,
     /// member of a visible MultiProgress that is then added to a hidden MultiProgress (at Op::Remove)
     MovedToHiddenMulti,
+    /// a bar on a stderr Term that was not a terminal when the Term was made; at Op::Remove fd 2 is
+    /// pointed at a pseudo terminal: the bar is still hidden (`is_hidden()` stays true) and stays silent
+    StderrBecomesTty,
+    /// a bar on a buffered stderr Term (not a terminal) that holds unflushed bytes of the program: no call
+    /// on the bar may push them out
+    BufferedNotATty,
     /// member of a hidden MultiProgress, removed, after which the MultiProgress is given a visible target
     RemovedFromHiddenMultiThenShown,
 }
@@ -172,7 +178,7 @@ impl Hist for C06 {
             v.retain(|o| !matches!(o, BOp::Inc(7) | BOp::Dec(1) | BOp::IncLen(_) | BOp::Style(_) | BOp::ResetEta | BOp::AbandonMsg(_) | BOp::FinishMsg(_) | BOp::UpdatePos(_) | BOp::Prefix(_)));
         }
         let mut out: Vec<Op> = v.into_iter().map(Op::B).collect();
-        if matches!(self.flavour, Flavour::RemovedFromHiddenMultiThenShown | Flavour::NotATtyMulti | Flavour::MovedToHiddenMulti) && !prefix.iter().any(|o| matches!(o, Op::Remove)) {
+        if matches!(self.flavour, Flavour::RemovedFromHiddenMultiThenShown | Flavour::NotATtyMulti | Flavour::MovedToHiddenMulti | Flavour::StderrBecomesTty) && !prefix.iter().any(|o| matches!(o, Op::Remove)) {
             out.insert(0, Op::Remove);
         }
         if matches!(self.flavour, Flavour::HiddenMulti | Flavour::NotATtyMulti) {
@@ -188,7 +194,7 @@ impl Hist for C06 {
     }
 
     fn run(&self, hist: &[Op], stats: &mut Stats) -> Verdict {
-        if self.flavour == Flavour::StdoutNotATtyStderrTty && pty_opt().is_none() {
+        if matches!(self.flavour, Flavour::StdoutNotATtyStderrTty | Flavour::StderrBecomesTty) && pty_opt().is_none() {
             stats.bump("skipped_no_pseudo_terminal_available", 1);
             return Verdict::Ok { hash: 0, nontrivial: false };
         }
@@ -203,6 +209,7 @@ impl Hist for C06 {
         let mut mp: Option<MultiProgress> = None;
         let mut pair_file: Option<std::fs::File> = None;
         let mut hidden_mp: Option<MultiProgress> = None;
+        let mut held_term: Option<console::Term> = None;
         let mut saved_fds = FdGuard(None);
         let mk = || ProgressBar::with_draw_target(Some(5), ProgressDrawTarget::hidden()).with_style(style(2)).with_finish(self.fin.real());
         let subject = match self.flavour {
@@ -251,6 +258,20 @@ impl Hist for C06 {
                 pty_drain();
                 ProgressBar::with_draw_target(Some(5), ProgressDrawTarget::stdout_with_hz(200)).with_style(style(2)).with_finish(self.fin.real())
             }
+            Flavour::StderrBecomesTty => {
+                let _ = pty();
+                unsafe {
+                    saved_fds.0 = Some((libc::dup(1), libc::dup(2)));
+                }
+                pty_drain();
+                ProgressBar::with_draw_target(Some(5), ProgressDrawTarget::term(console::Term::stderr(), 200)).with_style(style(2)).with_finish(self.fin.real())
+            }
+            Flavour::BufferedNotATty => {
+                let term = console::Term::buffered_stderr();
+                let _ = term.write_str("bytes of the program, not flushed yet");
+                held_term = Some(term.clone());
+                ProgressBar::with_draw_target(Some(5), ProgressDrawTarget::term(term, 200)).with_style(style(2)).with_finish(self.fin.real())
+            }
             Flavour::MovedToHiddenMulti => {
                 let m = MultiProgress::with_draw_target(ProgressDrawTarget::term_like(spy.boxed()));
                 let b = m.add(mk());
@@ -274,6 +295,13 @@ impl Hist for C06 {
                 Op::B(b) => {
                     apply(&twin, b);
                     apply(&subject, b);
+                }
+                Op::Remove if self.flavour == Flavour::StderrBecomesTty => {
+                    let (_, slave) = pty();
+                    unsafe {
+                        libc::dup2(slave, 2);
+                    }
+                    pty_drain();
                 }
                 Op::Remove if self.flavour == Flavour::MovedToHiddenMulti => {
                     let _ = hidden_mp.as_ref().unwrap().add(subject.clone());
@@ -311,7 +339,7 @@ impl Hist for C06 {
                     _ => spy.calls() == 0,
                 };
                 let pair_bytes = pair_file.as_ref().and_then(|f| f.metadata().ok()).map_or(0, |m| m.len());
-                let pty_bytes = if self.flavour == Flavour::StdoutNotATtyStderrTty { pty_drain() } else { 0 };
+                let pty_bytes = if matches!(self.flavour, Flavour::StdoutNotATtyStderrTty | Flavour::StderrBecomesTty) { pty_drain() } else { 0 };
                 if pair_bytes > 0 {
                     last_err = Some(("silence: bytes were written to a Term (read/write pair) that is not a TTY".into(), format!("{pair_bytes} bytes")));
                 } else if pty_bytes > 0 {
@@ -336,6 +364,7 @@ impl Hist for C06 {
         let g = catch(|| getters(&subject)).ok();
         let hidden_now = catch(|| subject.is_hidden()).unwrap_or(false);
         let _ = catch(move || drop((twin, subject, mp, hidden_mp)));
+        drop(held_term);
         if let Some((class, detail)) = last_err {
             return Verdict::Bad(Violation { class, config: self.config(), history: shown, detail });
         }
@@ -347,9 +376,9 @@ impl Hist for C06 {
 
 fn configs(tier: Tier) -> Vec<(C06, usize)> {
     let mut v = Vec::new();
-    let flavours = [Flavour::HiddenTarget, Flavour::NotATty, Flavour::HiddenMulti, Flavour::RemovedFromMulti, Flavour::NotATtyHz, Flavour::RemovedFromHiddenMultiThenShown, Flavour::NotATtyMulti, Flavour::ReadWritePair, Flavour::StdoutNotATtyStderrTty, Flavour::MovedToHiddenMulti];
+    let flavours = [Flavour::HiddenTarget, Flavour::NotATty, Flavour::HiddenMulti, Flavour::RemovedFromMulti, Flavour::NotATtyHz, Flavour::RemovedFromHiddenMultiThenShown, Flavour::NotATtyMulti, Flavour::ReadWritePair, Flavour::StdoutNotATtyStderrTty, Flavour::MovedToHiddenMulti, Flavour::StderrBecomesTty, Flavour::BufferedNotATty];
     for (k, &flavour) in flavours.iter().enumerate() {
-        let fin = [Fin::AndLeave, Fin::WithMessage, Fin::AndClear, Fin::AbandonWithMessage, Fin::Abandon, Fin::AndLeave, Fin::WithMessage, Fin::AndClear, Fin::AndLeave, Fin::Abandon][k];
+        let fin = [Fin::AndLeave, Fin::WithMessage, Fin::AndClear, Fin::AbandonWithMessage, Fin::Abandon, Fin::AndLeave, Fin::WithMessage, Fin::AndClear, Fin::AndLeave, Fin::Abandon, Fin::WithMessage, Fin::AndLeave][k];
         match tier {
             Tier::Quick => {
                 v.push((C06 { flavour, fin, reduced: false }, if flavour == Flavour::RemovedFromMulti { 3 } else { 2 }));
@@ -373,7 +402,7 @@ pub fn run(tier: Tier, shard: Shard, stats: &mut Stats) {
 pub fn meta(tier: Tier) -> Meta {
     Meta {
         level: "model_checking",
-        rule: "stateless DFS over all single-bar histories (26-operation alphabet incl. println, suspend, set_tab_width, length changes, every finish variant, positions beyond the length) to the stated depth, each executed in lock-step on a visible twin and on a hidden subject: ProgressDrawTarget::hidden(), ProgressBar::new with fd 2 redirected to a file (not a TTY), stderr_with_hz on the same, a member of a visible MultiProgress handed to a hidden one, a console::Term made of a read/write pair of files, stdout_with_hz while stdout is /dev/null and stderr is a pseudo terminal, member of a hidden MultiProgress, a member of a visible MultiProgress removed at every possible point of the history, and a member of a hidden MultiProgress removed at every point after which the MultiProgress is given a visible target; oracle: zero terminal calls (spy call counter incl. width/height; redirected file stays empty) and getters equal to the twin's after every operation; non-trivial = history contains more than ticks".into(),
+        rule: "stateless DFS over all single-bar histories (26-operation alphabet incl. println, suspend, set_tab_width, length changes, every finish variant, positions beyond the length) to the stated depth, each executed in lock-step on a visible twin and on a hidden subject: ProgressDrawTarget::hidden(), ProgressBar::new with fd 2 redirected to a file (not a TTY), stderr_with_hz on the same, a member of a visible MultiProgress handed to a hidden one, a bar whose stderr becomes a terminal after its Term was made, a bar on a buffered non-TTY Term holding unflushed bytes of the program, a console::Term made of a read/write pair of files, stdout_with_hz while stdout is /dev/null and stderr is a pseudo terminal, member of a hidden MultiProgress, a member of a visible MultiProgress removed at every possible point of the history, and a member of a hidden MultiProgress removed at every point after which the MultiProgress is given a visible target; oracle: zero terminal calls (spy call counter incl. width/height; redirected file stays empty) and getters equal to the twin's after every operation; non-trivial = history contains more than ticks".into(),
         assumptions: vec!["fd 2 of the shard process is redirected to an unlinked file for the whole run".into()],
         bounds: json!({"configurations": configs(tier).iter().map(|(c, d)| json!({"config": c.config(), "reduced_alphabet": c.reduced, "depth": d})).collect::<Vec<_>>()}),
         exhaustive: true,
